@@ -26,7 +26,8 @@ ALL_INDEX_KINDS = D.INDEX_KINDS + D.REPEAT_INDEX_KINDS
 def repr_spec(draw, p, integral, index_kinds=ALL_INDEX_KINDS, column_kinds=D.COLUMN_KINDS):
     containers = ["DataFrame", "ndarray2d"] + (["Series", "ndarray1d"] if p == 1 else [])
     return {"container": draw(st.sampled_from(containers)),
-            "dtype": draw(st.sampled_from(["int64", "float64"])) if integral else "float64",
+            # narrower integer types are used where every value fits (see `represent`)
+            "dtype": draw(st.sampled_from(["int64", "float64", "int32", "int16"])) if integral else "float64",
             "index": draw(D.index_spec(index_kinds)), "columns": draw(st.sampled_from(column_kinds))}
 
 
@@ -35,8 +36,11 @@ def represent(X, r, offset=0):
     import pandas as pd
 
     arr = np.asarray(X, dtype=float)
-    if r["dtype"] == "int64":
-        arr = arr.astype(np.int64)
+    if r["dtype"] in ("int64", "int32", "int16"):
+        dt = np.dtype(r["dtype"])
+        if r["dtype"] != "int64" and arr.size and np.abs(arr).max() > np.iinfo(dt).max:
+            dt = np.dtype("int64")  # the values do not fit the narrower type
+        arr = arr.astype(dt)
     n, p = arr.shape
     if r["container"] == "ndarray2d":
         return arr
@@ -241,6 +245,8 @@ def check(case):
             classes.append("int64_chunk_after_fractional_data")
     if any(r["dtype"] == "int64" for r in R.values()):
         classes.append("int64")
+    if any(r["dtype"] in ("int32", "int16") for r in R.values()):
+        classes.append("int32/int16")
     pandas_reprs = [r for r in R.values() if r["container"] in ("DataFrame", "Series")]
     if any(r["index"]["kind"].startswith(("datetime", "period")) for r in pandas_reprs):
         classes.append("time_index")
@@ -281,7 +287,12 @@ def scorer_cases(draw, tier):
     n = draw(st.integers(max(2 * ms + 2, 6), 30))
     integral = draw(st.sampled_from([True, False]))
     squared_error_family = "Gaussian" not in str(spec)
-    large = integral and squared_error_family and draw(st.integers(0, 3)) == 0
+    # whole-numbered data may be large counts (bytes, events, nanoseconds): factor 2e7 keeps every sum of squares below 2^63,
+    # 1e8 lets the sums of squares of a few rows exceed 2^63, 3e8 lets single squares exceed it - float64 holds them all;
+    # an offset of 30000 or 10^6 makes level / spread large (ADC counts)
+    large = draw(st.sampled_from([None, None, None, None, 2e7, 1e8, 3e8, "offset_30000", "offset_1e6", "full_range_int16"])) if integral else None
+    if isinstance(large, float) and not squared_error_family and large > 2e7:
+        large = 2e7
     k = {"CUSUM": 3, "ChangeScore": 3, "LocalAnomalyScore": 4}.get(spec["cls"], 2)
     cuts = []
     for _ in range(draw(st.integers(1, 5))):
@@ -301,9 +312,13 @@ def scorer_cases(draw, tier):
             "cuts_as": draw(st.sampled_from(["int64", "list", "int32"]))}
     # bulk data last (see strategies/data.py)
     X = draw(D.exact_matrix(n, p, dyadic=False)) if integral else draw(D.generic_matrix(n, p))
-    if large:
-        # large counts: still exactly representable in both dtypes (sums of squares stay below 2^63 and 2^53 x 1e3)
-        X = [[(v + 10) * 2e7 for v in row] for row in X]  # positive counts of order 1e8: sums of ~20 rows exceed 2^31.5
+    if isinstance(large, float):
+        X = [[(v + 10) * large for v in row] for row in X]  # positive counts of order 1e8..5e9
+    elif large == "full_range_int16":
+        X = [[max(-32768.0, min(32767.0, v * 4000.0)) for v in row] for row in X]  # rail to rail readings of a 16-bit converter
+    elif large:
+        off = 30000.0 if large == "offset_30000" else 1e6
+        X = [[max(-2.0, min(2.0, v)) + off for v in row] for row in X]
     case["X"] = X
     return case
 
